@@ -22,6 +22,9 @@ INF = float("inf")
 
 # record layout: columns 0..3 numeric, 4 string, 5 bool, 6 vector (dimension 2)
 NUM_COLS = [0, 1, 2, 3]
+# selections multiply the weight by the quantity: column 3 never holds +-inf, so that weights stay
+# finite (infinite weights are outside the stated domain of every property)
+SEL_COL = 3
 STR_COL = 4
 BOOL_COL = 5
 VEC_COL = 6
@@ -113,10 +116,10 @@ def gen_spec(rng, depth, kinds=None, leaf_kinds=None, allow_bag=True):
         es = sorted(set(dy(rng, -4, 4, 0.5) for _ in range(m + 1)))[:m]
         return {"k": k, "q": gen_q(rng, NUM_COLS), "edges": es, "value": sub(), "nanflow": flow()}
     if k == "Fraction":
-        cols = [BOOL_COL] if rng.random() < 0.5 else NUM_COLS
+        cols = [BOOL_COL] if rng.random() < 0.5 else [SEL_COL]
         return {"k": "Fraction", "q": gen_q(rng, cols), "value": sub()}
     if k == "Select":
-        cols = [BOOL_COL] if rng.random() < 0.5 else NUM_COLS
+        cols = [BOOL_COL] if rng.random() < 0.5 else [SEL_COL]
         return {"k": "Select", "q": gen_q(rng, cols), "cut": sub()}
     if k == "Categorize":
         # bool categories are excluded here: known finding C04-bool-category (keys become strings on reload)
@@ -244,6 +247,8 @@ def gen_value(rng, crit):
 
 def gen_datum(rng, crit, fault_rate=0.0):
     d = [gen_value(rng, crit) for _ in NUM_COLS]
+    if math.isinf(d[SEL_COL]):
+        d[SEL_COL] = rng.randint(-16, 24) / 8.0
     r = rng.random()
     d.append(None if r < 0.08 else rng.choice(CATS))
     d.append(rng.random() < 0.6)
